@@ -18,6 +18,10 @@ package control
 //        copy / reload clone / PrepackResponse / no ready-made bytes), then single clients and bursts
 //        ask through four ingresses (writer, dns_listener ServeDNS, UDP, DNS-over-TCP fast path);
 //        also negative entries, reject, SERVFAIL, and the cache lookup calls under a virtual clock
+//   L6   reply sizes at buffer boundaries (wire size and uncompressed size B-3..B+3 around 512, 1024, 1232,
+//        4096, 16384, 65535; address record sets with wire <= B <= uncompressed) through the DNS-over-TCP fast
+//        path, UDP and dns_listener, relayed / identical burst / cache hit / concurrent storm, every sized reply
+//        preceded on the same ingress by another client's reply; oracle on the received bytes
 //
 // Oracles: per reply (ID, question, answer marker), cache content at
 // quiescence, no two overlapping upstream resolutions of one question,
@@ -42,6 +46,7 @@ func TestVerifC09(t *testing.T) {
 			"over names whose entries are missing, fresh, stale (background refresh, run late or freely), negative or uncacheable, then a fresh single query per question used; "+
 			"L5: per round 3-6 names (TTL 20 s..1 day; first answer ok / slow with a burst of identical questions / negative / after an upstream error), then 5-10 steps that make one cached entry d seconds older "+
 			"(drift against the bytes' TTL threshold-6..threshold+2 around dae's 15 s repack threshold, almost the whole TTL, expired inside / outside the stale window) and ask through writer / dns_listener / UDP / TCP fast path, one client or 4-12 at once; "+
+			"L6: per pass every shape of upstream answer whose wire size or uncompressed size is B-3..B+3 for B in {512,1024,1232,4096,16384,65535} (TXT records padded to the byte; cacheable and TTL 0) and address record sets of 12..250 records (wire far below uncompressed), each asked through DNS-over-TCP fast path / UDP / dns_listener after another client's question on the same ingress, then as a burst of identical questions against a slow upstream, then again (cache hit), then a concurrent storm; "+
 			"distinct = (layer, upstream scheme, client path, qtype, colliding-ID overlap, identical-question overlap, reply kind, set of upstream behaviours the question met); "+
 			"non-trivial = the client's question met at least one upstream call or was served from cache while other clients were in flight")
 	m.SetFloor(80)
@@ -53,6 +58,7 @@ func TestVerifC09(t *testing.T) {
 		"timeouts are shortened only through contexts passed in (L2/L2b) or by the fake upstream giving up early (L1); no dae constant is edited",
 		"L4: the ControlPlane value carries only what handleTCPDnsFastPath reads (log, DnsController); stale entries come from upstream answers with TTL 0 (expired at once, inside the 60 s stale window); the schedule 'refresh goroutine runs after the connection's later queries' is produced through the LifecycleContext the embedder passes to NewDnsController (its Deadline() parks callers whose stack is rooted in the refresh goroutine while the gate is closed) - no code of dae is changed; replies are matched to the queries of their connection by (ID, question), in order first",
 		"L5: time is not waited for: the age of a cached answer is produced by publishing, in place of the entry dae stored, a copy whose Deadline / deadlineNano / packedResponseCreatedAt lie d seconds earlier (records and packed bytes are dae's own; copy made by the monitor, by CloneForReload, re-packed by the exported PrepackResponse, or without ready-made bytes as after a failed pack at insert); the verdict is the reply oracle only, which constructor or age class a reply went through is read from internal state and the upstream call log for coverage counters only; the virtual-clock walk repeats the two calls LookupDnsRespCache_ makes for an unexpired entry with a later `now` on a private copy and hands the bytes to writeCachedResponse",
+		"L6: the upstream is a fake DnsForwarder that answers every question correctly with an answer of the scripted shape; the sizes a reply actually had (bytes received; the same message without name compression) are measured on what the client received and drive the coverage counters only; the dns_listener client socket is a ResponseWriter that packs the message as miekg's server does and keeps the bytes; UDP clients are fresh loopback sockets, a missing UDP reply is counted, not judged",
 		"L5 class probe: queries are class IN except one class-CH query per L5 round for a (name,type) an IN query has just cached (judged; a reply that is right in ID, name and type but carries class IN is reported under the single signature reply-question-class-not-echoed/cache-hit, everything else under the ordinary signatures) and one class-CH query for an uncached pool name every other round (recorded only)",
 	)
 	if err := c09CheckMarkerInjective(); err != nil {
@@ -76,6 +82,7 @@ func TestVerifC09(t *testing.T) {
 	nL3 := vk.Scale(120, 2500)
 	nL4 := vk.Scale(150, 3000)
 	nL5 := vk.Scale(180, 3600)
+	nL6 := vk.Scale(2, 30) // passes over the full set of size shapes
 	stop := func() bool { return m.Violations() >= 8 && os.Getenv("VERIF_C09_NOSTOP") == "" }
 	only := os.Getenv("VERIF_C09_LAYERS") // diagnosis only, e.g. "L3" or "L1,L1r"; a partial run ends INCONCLUSIVE
 	layer := func(name string, n int, f func(i int)) {
@@ -95,6 +102,14 @@ func TestVerifC09(t *testing.T) {
 	layer("L3", nL3, func(i int) { e.c09L3Round(r, i) })
 	layer("L4", nL4, func(i int) { e.c09L4Round(r, i) })
 	layer("L5", nL5, func(i int) { e.c09L5Round(r, i) })
+	layer("L6", nL6, func(i int) {
+		shapes := c09SizeShapes(r)
+		for k := 0; len(shapes) > 0 && !stop(); k++ {
+			n := min(20, len(shapes))
+			e.c09L6Round(r, i*100+k, shapes[:n])
+			shapes = shapes[n:]
+		}
+	})
 	if m.Violations() == 0 {
 		m.Require(
 			"msgs_judged", "answer_markers_checked", "cache_entries_checked", "cache_markers_checked",
@@ -110,6 +125,7 @@ func TestVerifC09(t *testing.T) {
 			"L4_queries_answered_from_cache", "L4_queries_resolved_upstream", "L4_probe_queries", "L4_primed_stale", "L4_primed_fresh", "L4_primed_negative",
 		)
 		m.Require(c09L5Required()...)
+		m.Require(c09L6Required()...)
 	}
 	m.Done(t)
 }
